@@ -74,6 +74,14 @@ def cross_file_trees():
         "net/client": [packet("Fam1", "Act", [field("u", "UsesRoot")])],
         "net/server": [], "map": [struct("MapUsesRoot", [array("cs", "RootCoords")])], "pub": [], "pub/server": [],
     }))
+    # 6: type names whose module names are Python SOFT keywords (match / case / type are ordinary identifiers and importable
+    # module names), referenced from other files
+    out.append(("soft-keyword-names", {
+        "net": [enum("Type", "char", [("One", 1), ("Two", 2)]), struct("Match", [field("t", "Type"), field("n", "char")]), struct("Case", [field("m", "Match")])],
+        "net/client": [packet("Fam1", "Act", [field("m", "Match"), field("t", "Type:short")])],
+        "net/server": [packet("Fam1", "Act", [array("cs", "Case", length="2")])],
+        "map": [struct("MapType", [field("t", "Type")])], "pub": [struct("Soft", [field("c", "Case", optional="true")])], "pub/server": [],
+    }))
     return out
 
 
